@@ -70,6 +70,15 @@ func enumC03(emit func(c any) bool) {
 				if !emit(c) {
 					return
 				}
+				if c.Again != nil {
+					// ... and with an empty input in between
+					c2 := *c
+					c2.Again = &C03Again{Data: c.Again.Data, Empty: true}
+					c = &c2
+				}
+				if !emit(c) {
+					return
+				}
 			}
 		}
 	}
